@@ -14,12 +14,32 @@ def showOctalAux : Nat → Nat → List Char → List Char
 
 def showOctal (n : Nat) : String := String.ofList (showOctalAux 32 n [])
 
+def showFileSt (old new : Bytes) (f : FileSt) : String :=
+  if !f.present then "-" else
+  showOctal f.mode ++ ":" ++ (if f.content.isEmpty then "empty" else if f.content == new then "new" else if f.content == old then "old" else "other")
+
+def parsePre (s : String) (old : Bytes) : Option FileSt :=
+  if s = "-" then some noFile else (parseOctal s).map fun m => ⟨true, m, old⟩
+
 /-- ops:
+  save <secure 0|1> <umask-octal> <target mode|-> <tmp mode|->
+                                 → the states "target|tmp" both files go through while the tree's `key.Save` runs
+                                   (variant from Gen.saveRenamesOverTarget), consecutive duplicates removed
   file <class> <umask-octal>     → "<mode-octal> secret|public"   (the model's file table for the code as it is)
   chan <label>                   → pub | sign | dkg | mixed | unknown-channel
   scan <secret-hex> <blob-hex>   → clean | leak:<encoding> -/
 def secrecyStep (f : List String) : String :=
   match f with
+  | ["save", sec, um, tg, tm] =>
+    let old : Bytes := [1]
+    let new : Bytes := [2]
+    match parseOctal um, parsePre tg old, parsePre tm old with
+    | some u, some t0, some m0 =>
+      let states := ⟨t0, m0⟩ :: traceS u ⟨t0, m0⟩ (codeSaveProtocol (sec = "1") new)
+      let shown := states.map fun st => showFileSt old new st.target ++ "|" ++ showFileSt old new st.tmp
+      let dedup := shown.foldl (fun acc x => if acc.getLast? == some x then acc else acc ++ [x]) ([] : List String)
+      (if Gen.saveRenamesOverTarget then "rename " else "inplace ") ++ " ".intercalate dedup
+    | _, _, _ => "bad-op"
   | ["file", cls, um] =>
     match parseOctal um, files.find? (·.name == cls) with
     | some u, some fc => showOctal (modeAfter fc.creator u) ++ " " ++ (if fc.holdsSecret then "secret" else "public")
